@@ -442,7 +442,9 @@ def run_c03(ctx):
     for k in KIND_LIST + ['Hidden']:
         for _ in range(ctx.scale(12, 100)):
             vals.append(('ctrl_kind_' + k, ctrl_text(0, 1, 2, 3, 4, ['MessageType(%s)' % rng.choice(MT), rand_avp(rng, k)])))
-    enc = ['ENC\t%s\t' % v for (_, v) in vals]
+    # one in four is encoded behind what the writer already holds; the message is what was appended
+    pre = [rbytes(rng, rng.choice([1, 12, 20, 300])).hex() if (i % 4 == 3 and i > 1) else '' for i in range(len(vals))]
+    enc = ['ENC\t%s\t%s' % (v, p) for (_, v), p in zip(vals, pre)]
     r1 = run_compare(ctx, rep, enc, [t for (t, _) in vals], lambda c, r: r)
     dec, exp, tg = [], [], []
     for i, (t, v) in enumerate(vals):
@@ -450,7 +452,7 @@ def run_c03(ctx):
         if not r.startswith('Ok '):
             rep.fail('encoding a message of the encodable domain did not return', case=enc[i], executor='release', result=r[:200])
             continue
-        hx = r[3:]
+        hx = r[3:][len(pre[i]):]
         dec.append('DEC\t7\t' + hx); exp.append('Ok %s rem=0' % ctrl_with_length(v, len(hx) // 2)); tg.append(t)
     r2 = run_compare(ctx, rep, dec, tg, lambda c, r: r)
     for w in IMPLS:
